@@ -94,6 +94,7 @@ type inst struct {
 	ethDelay uint64
 	tmLatest int64 // latest height the client has been given (Tendermint)
 	tmDelay  uint64
+	tmOldRev bool // installed in the NEXT revision at a low height: the headers that follow are fill-ins of the previous revision
 	tss      *core.Account // current TSS account
 	flaw     string        // non-empty: the content was built to be uninitialisable
 }
@@ -191,6 +192,33 @@ func (e *env) trackedTM(rng *rand.Rand, old *inst) (*inst, error) {
 		return nil, err
 	}
 	return &inst{typ: tTM, cs: cs, cons: hdr.ConsensusState(), installed: height, src: old.src, dst: old.dst, seq: old.seq, commitment: old.commitment, proof: proof, tmLatest: h, tmDelay: delay}, nil
+}
+
+// nextRevTM is an upgrade into the next revision of the same counterparty (chain id "...-<r+1>") that restarts at a low
+// height and carries the consensus state of the old revision's latest tracked block, so the old fact is provable at the
+// installed height. Headers of the previous revision stay acceptable as fill-ins trusted on its stored states; whatever
+// happens to them, the installed height stays the client's latest and a proof there must verify after the delay.
+func (e *env) nextRevTM(rng *rand.Rand, old *inst) (*inst, error) {
+	p := e.p
+	h := old.tmLatest
+	hdr, err := p.SignedHeader(h, clienttypes.NewHeight(p.Revision(), uint64(h)))
+	if err != nil {
+		return nil, err
+	}
+	next, err := clienttypes.SetRevisionNumber(p.ChainID, p.Revision()+1)
+	if err != nil {
+		return nil, err
+	}
+	height := clienttypes.NewHeight(p.Revision()+1, uint64(1+rng.Intn(3)))
+	delay := []uint64{0, uint64(time.Second), uint64(4 * time.Second)}[rng.Intn(3)]
+	cs := xtm.NewClientState(next, xtm.DefaultTrustLevel, 14*24*time.Hour, 21*24*time.Hour, 10*time.Second, height,
+		commitmenttypes.GetSDKSpecs(), commitmenttypes.MerklePrefix{KeyPrefix: []byte(host.StoreKey)}, delay)
+	key := host.PacketCommitmentKey(old.src, old.dst, old.seq)
+	proof, _, err := e.w.Proof(p, key, h)
+	if err != nil {
+		return nil, err
+	}
+	return &inst{typ: tTM, cs: cs, cons: hdr.ConsensusState(), installed: height, src: old.src, dst: old.dst, seq: old.seq, commitment: old.commitment, proof: proof, tmLatest: h, tmDelay: delay, tmOldRev: true}, nil
 }
 
 func (e *env) newTM(rng *rand.Rand) (*inst, error) {
